@@ -119,3 +119,40 @@ func ZZ_C02_EvalNow() {
 		zz.Assert(rec.OpenRange() == nil, "open-range-gone")
 	}
 }
+
+// ZZ_C02_EvalNowMany: several records with open ranges (yesterday's and today's,
+// in both file orders, optionally two for the same day) closed at one instant:
+// every record's range is closed relative to its OWN date.
+func ZZ_C02_EvalNowMany() {
+	nowH := zz.IntRange("nowH", 0, 23)
+	nowM := zz.IntRange("nowM", 0, 59)
+	nowMin := nowH*60 + nowM
+	now := gotime.Date(2020, 3, 1, nowH, nowM, 0, 0, gotime.UTC)
+	today, yesterday := zzDate(2020, 3, 1), zzDate(2020, 2, 29)
+	order := zz.Choose(4) // which dates the two records carry
+	dates := [][2]klog.Date{{yesterday, today}, {today, yesterday}, {yesterday, yesterday}, {today, today}}[order]
+	var rs []klog.Record
+	var starts []int
+	for i := 0; i < 2; i++ {
+		r := klog.NewRecord(dates[i])
+		s, off := klog.ZZSymTime("s")
+		_ = r.Start(klog.NewOpenRange(s), nil)
+		rs = append(rs, r)
+		starts = append(starts, off)
+	}
+	rel := func(i int) int {
+		if dates[i].IsEqualTo(yesterday) {
+			return nowMin + 1440
+		}
+		return nowMin
+	}
+	closed, err := CloseOpenRanges(now, rs...)
+	closeable := zz.And(rel(0) >= starts[0], rel(1) >= starts[1])
+	zz.Observe("ok", err == nil)
+	zz.Assert(zz.Iff(err == nil, closeable), "all-closeable-iff-no-start-after-now")
+	if err == nil {
+		zz.Assert(closed, "reports-closed")
+		zz.Assert(Total(rs[0]).InMinutes() == rel(0)-starts[0], "first-record-closed-relative-to-its-own-date")
+		zz.Assert(Total(rs[1]).InMinutes() == rel(1)-starts[1], "second-record-closed-relative-to-its-own-date")
+	}
+}
